@@ -151,12 +151,6 @@ func (s *storage) StatBlobs(ctx context.Context, blobs []blob.Ref, fn func(blob.
 }
 
 func (s *storage) ReceiveBlob(ctx context.Context, plainBR blob.Ref, source io.Reader) (sb blob.SizedRef, err error) {
-	// Aggressively check for duplicates since there's nothing else to ensure we don't store blobs twice
-	if plainSize, _, err := s.fetchMeta(ctx, plainBR); err == nil {
-		log.Println("encrypt: duplicated blob received", plainBR)
-		return blob.SizedRef{Ref: plainBR, Size: uint32(plainSize)}, nil
-	}
-
 	plainBytes := pools.BytesBuffer()
 	defer pools.PutBuffer(plainBytes)
 
@@ -167,6 +161,13 @@ func (s *storage) ReceiveBlob(ctx context.Context, plainBR blob.Ref, source io.R
 	}
 	if !plainBR.HashMatches(hash) {
 		return sb, blobserver.ErrCorruptBlob
+	}
+
+	// Aggressively check for duplicates since there's nothing else to ensure we don't store blobs twice.
+	// (Only after the source has been read and verified: a duplicate must still be the right bytes.)
+	if dupSize, _, err := s.fetchMeta(ctx, plainBR); err == nil {
+		log.Println("encrypt: duplicated blob received", plainBR)
+		return blob.SizedRef{Ref: plainBR, Size: uint32(dupSize)}, nil
 	}
 
 	encBytes := pools.BytesBuffer()
